@@ -3,6 +3,7 @@ package main
 import (
 	"fmt"
 	"go/ast"
+	"go/parser"
 	"go/types"
 	"path"
 	"sort"
@@ -321,6 +322,15 @@ func (w *World) genDescriptor(sp *ssa.Package, d *Descriptor, base string) (g *G
 		fr0.regs[fv] = pv
 	}
 	fr0.bind = binds
+	if _, ok := w.CS.Specs["validV"]; ok {
+		// every argument is a valid octosql.Value (the value invariant of package octosql)
+		env := &SpecEnv{e: e, fr: fr0, st: st, bound: map[string]SV{}, cs: w.CS, pkg: e.pkg}
+		for i := 0; i < n; i++ {
+			x, _ := parser.ParseExpr(fmt.Sprintf("validV(values[%d])", i))
+			guard := lt(intLit(int64(i)), values.Len)
+			e.assume(implies(guard, scal(env.eval(x))))
+		}
+	}
 	if c != nil {
 		env := &SpecEnv{e: e, fr: fr0, st: st, bound: map[string]SV{}, cs: w.CS, pkg: e.pkg}
 		for _, r := range c.Requires {
